@@ -21,7 +21,7 @@
    Generated ids: GenRequestId / GenLockId are modelled as counters; generated lock ids live above 2^128, i.e. they are
    different from every key-derived id and from each other (trusted: freshness of GenLockId). *)
 From Coq Require Import List NArith ZArith Bool String Ascii.
-From Slock Require Import Base.Util Engine.Types Engine.Queues Engine.Timers Engine.Engine Engine.Engine2.
+From Slock Require Import Base.Util Data.Spec Engine.Types Engine.Queues Engine.Timers Engine.Engine Engine.Engine2.
 Import ListNotations.
 Open Scope N_scope.
 
@@ -112,10 +112,10 @@ Definition key_id (a : bytes) : N :=
 (* ------------------------------------------------------------------------------------------------ value frames *)
 Definition le16 (n : N) : bytes := [n mod 256; (n / 256) mod 256].
 (* NewLockCommandDataFrom{String,Bytes}(payload, STAGE_CURRENT, typ, flag, [KEY property = key]) *)
+(* the property header: total length of the properties, then (code = KEY, length, bytes) *)
+Definition key_hdr (key : bytes) : bytes := le16 (blen key + 3) ++ [1] ++ le16 (blen key) ++ key.
 Definition frame_prop (typ flag : N) (key payload : bytes) : bytes :=
-  let plen := blen key + 3 in
-  let dlen := blen payload + 2 + plen + 2 in
-  le32 (Z.of_N dlen) ++ [typ mod 64; N.lor flag 16] ++ le16 plen ++ [1] ++ le16 (blen key) ++ key ++ payload.
+  mk_frame (typ mod 64) (N.lor flag 16) (key_hdr key) payload.
 Definition frame_set (key v : bytes) : bytes := frame_prop 0 0 key v.
 Definition frame_append (key v : bytes) : bytes := frame_prop 3 0 key v.
 Definition frame_incr (key : bytes) (d : Z) : bytes := frame_prop 2 1 key (le64 d).
